@@ -470,52 +470,39 @@ def MgState.requiresCrop {α : Type} (s : MgState α) : Bool :=
   | some pl => pl.2.2.requiresCrop
   | none => false
 
+/-- sequencing in `Except` (an exception ends the call) -/
+def bindE {β γ : Type} (r : Except ErrKind β) (f : β → Except ErrKind γ) : Except ErrKind γ :=
+  match r with
+  | .error e => .error e
+  | .ok b => f b
+
 /-- one top-level operation of `match_geometry` -/
 def mgStep {α : Type} (src : Geom) (tgt : Geom) (tol : Rat) (mode : PadMode α) (s : MgState α) (op : MgOp) :
     Except ErrKind (MgState α) :=
   match op with
-  | .head =>
-    match mgHead src.frameOfRef tgt.frameOfRef src.cs tgt.cs with
-    | .error e => .error e
-    | .ok _ => .ok s
-  | .align =>
-    match matchAlign s.vol.geom tgt tol with
-    | .error e => .error e
-    | .ok a => .ok { s with align := some a }
+  | .head => bindE (mgHead src.frameOfRef tgt.frameOfRef src.cs tgt.cs) (fun _ => .ok s)
+  | .align => bindE (matchAlign s.vol.geom tgt tol) (fun a => .ok ⟨s.vol, some a, s.plan⟩)
   | .permute =>
     match s.align with
     | none => .error .other
-    | some a =>
-      match permute s.vol a.1 with
-      | .error e => .error e
-      | .ok v => .ok { s with vol := v }
+    | some a => bindE (permute s.vol a.1) (fun v => .ok ⟨v, s.align, s.plan⟩)
   | .plan =>
     match s.align with
     | none => .error .other
-    | some a =>
-      match matchPlan s.vol.geom tgt a.2 tol with
-      | .error e => .error e
-      | .ok pl => .ok { s with plan := some pl }
+    | some a => bindE (matchPlan s.vol.geom tgt a.2 tol) (fun pl => .ok ⟨s.vol, s.align, some pl⟩)
   | .copy => .ok s
   | .pad =>
     match s.plan with
     | none => .error .other
     | some pl =>
-      match pad s.vol (mk3 pl.1.before pl.2.1.before pl.2.2.before) (mk3 pl.1.after pl.2.1.after pl.2.2.after) mode with
-      | .error e => .error e
-      | .ok v => .ok { s with vol := v }
+      bindE (pad s.vol (mk3 pl.1.before pl.2.1.before pl.2.2.before) (mk3 pl.1.after pl.2.1.after pl.2.2.after) mode)
+        (fun v => .ok ⟨v, s.align, s.plan⟩)
   | .crop =>
     match s.plan with
     | none => .error .other
-    | some pl =>
-      match getitem s.vol (mk3 pl.1.sl pl.2.1.sl pl.2.2.sl) with
-      | .error e => .error e
-      | .ok v => .ok { s with vol := v }
+    | some pl => bindE (getitem s.vol (mk3 pl.1.sl pl.2.1.sl pl.2.2.sl)) (fun v => .ok ⟨v, s.align, s.plan⟩)
   | .finalCheck =>
-    match geometryEqual s.vol.geom tgt (some tol) with
-    | .error e => .error e
-    | .ok true => .ok s
-    | .ok false => .error .runtime
+    bindE (geometryEqual s.vol.geom tgt (some tol)) (fun eq => if eq then .ok s else .error .runtime)
 
 /-- run a list of guarded operations -/
 def runMatch {α : Type} (src tgt : Geom) (tol : Rat) (mode : PadMode α) :
@@ -523,16 +510,12 @@ def runMatch {α : Type} (src tgt : Geom) (tol : Rat) (mode : PadMode α) :
   | [], s => .ok s
   | (op, guard) :: rest, s =>
     if guard s.requiresPermute s.requiresPad s.requiresCrop then
-      match mgStep src tgt tol mode s op with
-      | .error e => .error e
-      | .ok s' => runMatch src tgt tol mode rest s'
+      bindE (mgStep src tgt tol mode s op) (runMatch src tgt tol mode rest)
     else runMatch src tgt tol mode rest s
 
 /-- `match_geometry`, operations in the order of the current source -/
 def matchBySource {α : Type} (src : Vol α) (tgt : Geom) (tol : Rat) (mode : PadMode α) : Except ErrKind (Vol α) :=
-  match runMatch src.geom tgt tol mode mgSteps ⟨src, none, none⟩ with
-  | .error e => .error e
-  | .ok s => .ok s.vol
+  bindE (runMatch src.geom tgt tol mode mgSteps ⟨src, none, none⟩) (fun s => .ok s.vol)
 
 /-- one operation of an index-mapping entry point; the state is (matrix to apply, current points) -/
 def idxStep (fromA toA : Aff) (shape : Ax → Int) (roundOut check : Bool)
